@@ -99,6 +99,8 @@ def const_value(ctx, fi: FuncInfo, e: ast.expr):
                     if isinstance(tg, ast.Name) and tg.id == n.attr and getattr(st, "value", None) is not None:
                         try:
                             env[f"__attr_{n.value.id}_{n.attr}"] = ConstEval(ctx.repo, fi.module).eval(st.value, {})
+                        except (NameError, UnboundLocalError):
+                            raise
                         except Exception:
                             pass
         if env:
@@ -129,6 +131,8 @@ def mentions_text(ctx, fi: FuncInfo, node: ast.AST, text: str) -> bool:
             try:
                 if ctx.repo.try_const(fi.module, x.id, None) == text:
                     return True
+            except (NameError, UnboundLocalError):
+                raise
             except Exception:
                 pass
     return False
@@ -229,3 +233,23 @@ def loc(fi: FuncInfo, node: ast.AST) -> tuple[str, int]:
 def need(cond, msg: str):
     if not cond:
         raise AnalysisError(msg)
+
+
+def empty_graph_tests(gname: str) -> set[str]:
+    """the ways this code base (and ordinary networkx use) asks whether a graph has no atoms, as normalised source text"""
+    g = gname
+    return {f"{g}.number_of_nodes() == 0", f"len({g}) == 0", f"not {g}", f"not {g}.nodes", f"len({g}.nodes) == 0", f"{g}.number_of_nodes() < 1",
+            f"not {g}.number_of_nodes()", f"{g}.order() == 0", f"not len({g})", f"len({g}) < 1", f"not {g}.nodes()", f"len({g}.nodes()) == 0"}
+
+
+def only_for_empty_graph(fn: ast.AST, target: ast.AST, gnames) -> Optional[ast.expr]:
+    """the test of an enclosing `if <graph has no atoms>:` whose body holds `target` -- the statement is then executed only
+    for the molecule without atoms, which the claims about numbering, classes and string shape do not cover"""
+    accepted = set()
+    for g in gnames:
+        accepted |= empty_graph_tests(g)
+    for n in ast.walk(fn):
+        if isinstance(n, ast.If) and norm(n.test) in accepted and any(x is target for b_ in n.body for x in ast.walk(b_)):
+            return n.test
+    return None
+
